@@ -461,4 +461,33 @@ theorem values_subset_dir (m i b : Bool) (infos : List DirInfo) (allowUnsafe isI
 example : filterValues genCfg [⟨"p", true, true, false, false⟩, ⟨"x", true, false, false, false⟩] false true
     = ["p", "x"] := by decide
 
+/-! ## the same, spelled out for the source as it is (`genCfg`) -/
+
+theorem safe_no_user_get_gen (t : Target) (a : String) (isInstance inDir dynHas annValues : Bool)
+    (hi : t.isType = false) :
+    (filterGetInfer genCfg t a false isInstance inDir dynHas annValues).2 = [] :=
+  safe_no_user_get _ _ _ t a isInstance inDir dynHas annValues hi
+
+theorem safe_no_user_get_class_partial_gen (t : Target) (a : String)
+    (isInstance inDir dynHas annValues : Bool) (hi : t.isType = true)
+    (hmeta : ∀ e, mroLookup t.metaMro a = some e → e.tag.userGet = false) :
+    (filterGetInfer genCfg t a false isInstance inDir dynHas annValues).2 = [] :=
+  safe_no_user_get_class_partial _ _ _ t a isInstance inDir dynHas annValues hi hmeta
+
+theorem safe_no_item_iter_gen (ty : Ty) (ia : GetResult) (ann : Bool) :
+    (pySimpleGetitem genCfg ty true).2 = [] ∧
+    ((pySimpleGetitem genCfg ty true).1 = true → ∃ n, ty = .builtin n ∧ n ∈ C13.allowedGetitemTypes) ∧
+    (∀ ev ∈ (pyIterList genCfg ty ia ann).2, ∃ id ∈ ia.trace, ev = .get id) ∧
+    ((pyIterList genCfg ty ia ann).1 = .items → ∃ n, ty = .builtin n ∧ n ∈ C13.allowedGetitemTypes) := by
+  have h1 := safe_no_item_iter_getitem C13.metaHitReportsGet C13.hasIterExecutes C13.boolExecutes ty
+  have h2 := safe_no_item_iter_iterlist C13.metaHitReportsGet C13.hasIterExecutes C13.boolExecutes ty ia ann
+  refine ⟨h1.1, ?_, h2.1, h2.2⟩
+  intro h
+  obtain ⟨n, hn, hm, _⟩ := h1.2 h
+  exact ⟨n, hn, hm⟩
+
+theorem dir_superset_gen (infos : List DirInfo) (allowUnsafe isInstance : Bool) :
+    ∀ info ∈ infos, info.name ∈ filterValues genCfg infos allowUnsafe isInstance :=
+  dir_superset _ _ _ infos allowUnsafe isInstance
+
 end JediModel.Props.C13
